@@ -130,9 +130,6 @@ Qed.
    (2) a normalised configuration — a known mode, eight non-zero limits, failure-cache fields in range —
        is accepted as it is: Validate never asks for a limit to be anything but non-zero, so the configured
        number is the enforced number (configured_limits_are_the_policy). *)
-Definition name_off : list N := [111; 102; 102].
-Definition name_shadow : list N := [115; 104; 97; 100; 111; 119].
-Definition name_enforce : list N := [101; 110; 102; 111; 114; 99; 101].
 Definition known_mode (m : list N) : Prop := m = name_off \/ m = name_shadow \/ m = name_enforce.
 Definition limits_set (c : T_RecursionFirewallConfig) : Prop :=
   T_RecursionFirewallConfig_MaxOutboundQueries c <> 0 /\ T_RecursionFirewallConfig_MaxInternalQueries c <> 0 /\
@@ -175,6 +172,68 @@ Proof.
   destruct (Z.ltb_spec (T_Duration_Duration (T_RecursionFirewallConfig_FailureCacheMaxTTL c)) (T_Duration_Duration (T_RecursionFirewallConfig_FailureCacheMinTTL c))); [lia|].
   destruct (Z.ltb_spec 300000000000 (T_Duration_Duration (T_RecursionFirewallConfig_FailureCacheMaxTTL c))); [lia|].
   reflexivity.
+Qed.
+
+(* config.RecursionFirewallConfig.Normalize as translated from the source (a receiver-mutating method: the translation
+   hands back the final receiver) is norm_model.  The generated term is a tree of 2^12 paths — twelve sequential
+   `if field == 0 { field = default }` statements —; each path is decided by which fields are zero, so the proof is a
+   case split on the head constructor of every field followed by computation. *)
+Lemma gen_normalize : forall c, go_RecursionFirewallConfig_Normalize c = norm_model c.
+Proof.
+  intros [m f1 f2 f3 f4 f5 f6 f7 f8 s [tmin] [tmax]].
+  destruct m as [|x m], f1, f2, f3, f4, f5, f6, f7, f8, s, tmin, tmax; reflexivity.
+Qed.
+
+Lemma cfg_limit_nonzero : forall v d, d <> 0 -> cfg_limit v d <> 0.
+Proof. intros v d Hd. unfold cfg_limit. destruct (N.eqb_spec v 0); assumption. Qed.
+
+(* an omitted field is "0"; a failure-cache field that is given must be in the range Validate accepts *)
+Definition failure_cache_fields_ok (c : T_RecursionFirewallConfig) : Prop :=
+  let s := T_RecursionFirewallConfig_FailureCacheSize c in
+  let tmin := T_Duration_Duration (T_RecursionFirewallConfig_FailureCacheMinTTL c) in
+  let tmax := T_Duration_Duration (T_RecursionFirewallConfig_FailureCacheMaxTTL c) in
+  (0 <= s)%Z /\ (tmin = 0 \/ 1000000000 <= tmin <= 300000000000)%Z /\ (tmax = 0 \/ 1000000000 <= tmax <= 300000000000)%Z /\
+  (tmin = 0 \/ tmax = 0 \/ tmin <= tmax)%Z /\ (tmax = 0 \/ tmin <> 0 \/ 5000000000 <= tmax)%Z.
+
+(* Validate after Normalize: whatever limits are omitted, a configuration whose mode is omitted or one of the three
+   names passes — so MustRecursionWorkPolicyFromConfig does not panic on it *)
+Lemma validate_normalize_accepts : forall c,
+  (T_RecursionFirewallConfig_Mode c = [] \/ known_mode (T_RecursionFirewallConfig_Mode c)) -> failure_cache_fields_ok c ->
+  go_RecursionFirewallConfig_Validate (go_RecursionFirewallConfig_Normalize c) = false.
+Proof.
+  intros c Hm (Hs & Hmin & Hmax & Hord & Hdef). rewrite gen_normalize.
+  destruct c as [m f1 f2 f3 f4 f5 f6 f7 f8 s [tmin] [tmax]]. cbn in *.
+  apply gen_validate_accepts; unfold norm_model; cbn.
+  - unfold known_mode in *. destruct Hm as [-> | Hk]; [right; left; reflexivity|].
+    destruct m; [destruct Hk as [H|[H|H]]; discriminate H|exact Hk].
+  - unfold limits_set. cbn. repeat split; apply cfg_limit_nonzero; discriminate.
+  - destruct (Z.eqb_spec s 0); [reflexivity|lia].
+  - destruct (Z.eqb_spec tmin 0); cbn; [unfold default_failure_cache_min_ttl; lia|lia].
+  - unfold default_failure_cache_min_ttl, default_failure_cache_max_ttl.
+    destruct (Z.eqb_spec tmin 0), (Z.eqb_spec tmax 0); cbn; lia.
+  - unfold default_failure_cache_max_ttl. destruct (Z.eqb_spec tmax 0); cbn; lia.
+Qed.
+
+(* ... and Normalize never repairs a mode text: anything but the empty text is kept, so an unknown name is refused *)
+Lemma validate_normalize_refuses : forall c,
+  T_RecursionFirewallConfig_Mode c <> [] -> ~ known_mode (T_RecursionFirewallConfig_Mode c) ->
+  go_RecursionFirewallConfig_Validate (go_RecursionFirewallConfig_Normalize c) = true.
+Proof.
+  intros c Hne Hk. destruct (go_RecursionFirewallConfig_Validate _) eqn:E; [reflexivity|exfalso].
+  apply gen_validate_refuses in E. destruct E as [E _]. rewrite gen_normalize in E.
+  destruct c as [m f1 f2 f3 f4 f5 f6 f7 f8 s tmin tmax]. cbn in *. destruct m; [contradiction|]. apply Hk. exact E.
+Qed.
+
+(* policy_of_config (what the CasePolicy cases compare the real MustRecursionWorkPolicyFromConfig with) is
+   "Normalize, then the mode switch and the eight limit fields" *)
+Lemma policy_of_config_is_normalize : forall mt l0 l1 l2 l3 l4 l5 l6 l7 s tmin tmax, mt <= 3 ->
+  policy_of_config mt [l0; l1; l2; l3; l4; l5; l6; l7] =
+  Some (policy_of_normalized (go_RecursionFirewallConfig_Normalize
+          (mk_T_RecursionFirewallConfig (mode_text_name mt) l0 l1 l2 l3 l4 l5 l6 l7 s tmin tmax))).
+Proof.
+  intros mt l0 l1 l2 l3 l4 l5 l6 l7 s tmin tmax Hmt. rewrite gen_normalize.
+  assert (H : mt = 0 \/ mt = 1 \/ mt = 2 \/ mt = 3) by lia.
+  destruct H as [-> | [-> | [-> | ->]]]; reflexivity.
 Qed.
 
 (* ------------------------------------------------------------------ Part A: sequential facts *)
